@@ -164,6 +164,9 @@ def frame_obligations(modules: dict):
             lnames, params, gdecl = local_names(fn)
             outer = enclosing_locals(fi)
             visible_local = lnames | outer
+            # the first parameter of a classmethod is the class object itself: shared by every call in the process
+            if any(ast.unparse(d).split(".")[-1] == "classmethod" for d in fn.decorator_list) and fn.args.args:
+                visible_local = visible_local - {fn.args.args[0].arg}
             bad_global, bad_store, bad_mut, bad_self, bad_dyn, bad_default = [], [], [], [], [], []
             if gdecl:
                 bad_global = sorted(gdecl)
